@@ -535,20 +535,21 @@ fn string<'a>() -> impl Parser<'a, ParserInput<'a>, Literal, ParserError<'a>> {
 }
 
 fn raw_string<'a>() -> impl Parser<'a, ParserInput<'a>, Literal, ParserError<'a>> {
+    // The string ends at the quote character it started with; the other kind
+    // of quote is ordinary content (`r'say "hi"'`).
+    let body = |quote: char| {
+        just(quote)
+            .ignore_then(
+                any()
+                    .filter(move |c: &char| *c != quote && *c != '\n' && *c != '\r')
+                    .repeated()
+                    .to_slice(),
+            )
+            .then_ignore(just(quote))
+    };
     just("r")
-        .then(choice((just('\''), just('"'))))
-        .then(
-            any()
-                .filter(move |c: &char| *c != '\'' && *c != '"' && *c != '\n' && *c != '\r')
-                .repeated()
-                .to_slice(),
-        )
-        .then(choice((just('\''), just('"'))))
-        .map(
-            |(((_, _open_quote), s), _close_quote): (((&str, char), &str), char)| {
-                Literal::RawString(s.to_string())
-            },
-        )
+        .ignore_then(choice((body('\''), body('"'))))
+        .map(|s: &str| Literal::RawString(s.to_string()))
 }
 
 fn boolean<'a>() -> impl Parser<'a, ParserInput<'a>, Literal, ParserError<'a>> {
